@@ -348,6 +348,23 @@ def run(pid, tier):
     with cfu.ThreadPoolExecutor(max_workers=V.NCPU) as ex:
         for res in ex.map(rundrv, jobs):
             crashes += res
+    # vacuity guard: every case must have produced at least one judged event (a command the driver skips silently would make a suite say nothing)
+    if not crashes:
+        silent = []
+        for (_c, tfile, _ids) in jobs:
+            cur, n = None, 0
+            with open(tfile, 'rb') as f:
+                for line in f:
+                    if line.startswith(b'{"e":"Reset"'):
+                        if cur is not None and n == 0:
+                            silent.append(cur)
+                        cur, n = json.loads(line)['id'], 0
+                    else:
+                        n += 1
+            if cur is not None and n == 0:
+                silent.append(cur)
+        if silent:
+            raise V.Infra('cases that produced no event at all (driver skipped their commands): %s' % [(c, bycase.get(c, ('?',))[0]) for c in silent[:5]])
     results = V.validate_traces('Trace_Codec', [j[1] for j in jobs], xss='512m', xmx='4g')
     viol, notes, nexec, nops, states, either = [], [], 0, 0, 0, 0
     for r in results:
